@@ -324,7 +324,7 @@ def do_job(prop, job, tier, seed, keep):
     try:
         r['build'] = build_job(job, wd)
         r['differential'] = differential(job, wd, seed, job.get('diff_count', 400))
-        for v in r['differential'].get('real_violations', []):
+        for v in r['differential'].get('real_violations', [])[:2]:
             # a violation observed directly on the real build during the differential run
             m = re.match(r'.*in=\[([^\]]*)\]', v)
             vals = [int(x) for x in m.group(1).split(',')] if m and m.group(1) else []
